@@ -203,8 +203,17 @@ func (r *rig) checkSnapshot(s *Snap, limitsAfterRun bool) []violation {
 			fail("all:missing", "transaction %x is %s but not in the hash index", h, where)
 		}
 	}
-	if raw.AllSlots != len(allSet) { // every transaction of the harness is below one slot (32 KiB)
-		fail("all:slots", "all.slots=%d but %d transactions are indexed", raw.AllSlots, len(allSet))
+	// the slot counter of the hash index = sum of the slots (32 KiB each) of the indexed transactions
+	wantSlots := 0
+	countSlots := func(txs []*types.Transaction) {
+		for _, t := range txs {
+			wantSlots += int((t.Size() + 32*1024 - 1) / (32 * 1024))
+		}
+	}
+	countSlots(raw.AllLocals)
+	countSlots(raw.AllRemotes)
+	if raw.AllSlots != wantSlots {
+		fail("all:slots", "all.slots=%d but the %d indexed transactions occupy %d slots", raw.AllSlots, len(allSet), wantSlots)
 	}
 	// --- price index covers the remote transactions
 	heap := map[common.Hash]bool{}
@@ -222,6 +231,10 @@ func (r *rig) checkSnapshot(s *Snap, limitsAfterRun bool) []violation {
 	// --- size limits
 	if uint64(len(allSet)) > cfg.GlobalSlots+cfg.GlobalQueue {
 		fail("limit:all", "%d transactions indexed, GlobalSlots+GlobalQueue=%d", len(allSet), cfg.GlobalSlots+cfg.GlobalQueue)
+	}
+	// the configured capacity is counted in slots, not in transactions
+	if uint64(raw.AllSlots) > cfg.GlobalSlots+cfg.GlobalQueue {
+		fail("limit:all-slots", "%d slots occupied by %d transactions, GlobalSlots+GlobalQueue=%d", raw.AllSlots, len(allSet), cfg.GlobalSlots+cfg.GlobalQueue)
 	}
 	if limitsAfterRun {
 		if uint64(queueTotal) > cfg.GlobalQueue {
